@@ -15,7 +15,10 @@ use super::InterfaceDescription;
 #[serde(tag = "method", content = "parameters")]
 pub enum Method<'a> {
     /// Get information about the Varlink service.
-    #[serde(rename = "org.varlink.service.GetInfo")]
+    #[serde(
+        rename = "org.varlink.service.GetInfo",
+        deserialize_with = "no_parameters"
+    )]
     GetInfo,
     /// Get the description of the specified interface.
     #[serde(rename = "org.varlink.service.GetInterfaceDescription")]
@@ -23,6 +26,44 @@ pub enum Method<'a> {
         /// The interface to get the description for.
         interface: &'a str,
     },
+}
+
+/// The `parameters` of a method that has none: `null` or an object (clients commonly send
+/// `"parameters": {}`), while a plain unit variant only accepts the member being absent or `null`.
+fn no_parameters<'de, D>(deserializer: D) -> core::result::Result<(), D::Error>
+where
+    D: serde::Deserializer<'de>,
+{
+    struct NoParameters;
+
+    impl<'de> serde::de::Visitor<'de> for NoParameters {
+        type Value = ();
+
+        fn expecting(&self, formatter: &mut core::fmt::Formatter<'_>) -> core::fmt::Result {
+            formatter.write_str("null or an object")
+        }
+
+        fn visit_unit<E>(self) -> core::result::Result<(), E> {
+            Ok(())
+        }
+
+        fn visit_none<E>(self) -> core::result::Result<(), E> {
+            Ok(())
+        }
+
+        fn visit_map<A>(self, mut map: A) -> core::result::Result<(), A::Error>
+        where
+            A: serde::de::MapAccess<'de>,
+        {
+            while map
+                .next_entry::<serde::de::IgnoredAny, serde::de::IgnoredAny>()?
+                .is_some()
+            {}
+            Ok(())
+        }
+    }
+
+    deserializer.deserialize_any(NoParameters)
 }
 
 /// `org.varlink.service` interface replies.
